@@ -704,6 +704,194 @@ def run_referenced_history(ctx, n):
         ctx.oracle(not bad, case, bad[0] if bad else None)
 
 
+# regular files that stat() with st_size == 0 although reading them yields bytes (procfs; sysfs and many FUSE mounts behave alike);
+# only entries whose content is stable are listed, and each is probed before use
+_ZERO_STAT_CANDIDATES = ["/proc/sys/kernel/ostype", "/proc/sys/kernel/osrelease", "/proc/version", "/proc/filesystems",
+                         "/proc/sys/kernel/pid_max", "/proc/sys/kernel/version", "/proc/cmdline"]
+_SIZE_REPORTS = ["zero", "absent", "shorter", "longer", "above-large-file-threshold"]
+
+
+def _zero_stat_sources():
+    """{path: bytes} of the host's regular files whose stat() says 'empty' and whose reads say otherwise"""
+    import stat
+
+    out = {}
+    for p in _ZERO_STAT_CANDIDATES:
+        try:
+            st = os.stat(p)
+            if not stat.S_ISREG(st.st_mode) or st.st_size != 0:
+                continue
+            with open(p, "rb") as fh:
+                a = fh.read()
+            with open(p, "rb") as fh:
+                b = fh.read()
+        except OSError:
+            continue
+        if a and a == b and len(a) < 2**16:
+            out[p] = a
+    return out
+
+
+def _reported_size(rng, how, true_size):
+    if how == "zero":
+        return 0
+    if how == "absent":
+        return None
+    if how == "shorter":
+        return rng.randrange(0, true_size) if true_size else 0
+    if how == "longer":
+        return true_size + rng.randrange(1, 5000)
+    return 2**21 + 1 + rng.randrange(0, 2**30)
+
+
+def _misreporting_memfs(reported):
+    """a private in-memory file system whose listings, walk(detail=True) and info() report, for the paths in `reported`, the size
+    given there (None: no size at all) instead of the number of bytes a read yields; reads are untouched"""
+    from dvc_objects.fs import MemoryFileSystem
+    from fsspec.implementations.memory import MemoryFileSystem as FsspecMemoryFileSystem
+
+    class _Inner(FsspecMemoryFileSystem):
+        cachable = False
+
+        def _fix(self, e):
+            if isinstance(e, dict) and e.get("type") == "file" and e.get("name") in reported:
+                e = dict(e)
+                if reported[e["name"]] is None:
+                    e.pop("size", None)
+                else:
+                    e["size"] = reported[e["name"]]
+            return e
+
+        def ls(self, path, detail=True, **kwargs):
+            out = [self._fix(e) for e in super().ls(path, detail=True, **kwargs)]
+            return out if detail else sorted(e["name"] for e in out)
+
+        def info(self, path, **kwargs):
+            return self._fix(super().info(path, **kwargs))
+
+    inner = _Inner()
+    inner.store = {}
+    inner.pseudo_dirs = [""]
+    return MemoryFileSystem(fs=inner)
+
+
+def run_build_stat_views(ctx, n):
+    """one set of (relative path, content) pairs staged through several views that differ ONLY in what stat()/listings say about
+    the files: a plain local directory; the same directory where some entries are symlinks to regular files that stat as empty
+    but read as non-empty (procfs, when the host has it); an in-memory file system that reports the truth; the same file system
+    reporting, for some files, a size of 0 / no size / too short / too long / above the large-file threshold.  Under every view,
+    file-hash flavour, job count, dry-run / by-reference / upload staging (and a cold, then warm, hash-state cache on the local
+    views) the listing carries each file's own digest and the identifier is the identifier of that listing; staging one of the
+    misreported files on its own gives that file's digest too"""
+    from dvc_objects.fs.local import LocalFileSystem
+
+    from dvc_data.hashfile import build as build_mod
+    from dvc_data.hashfile.db.local import LocalHashFileDB
+    from dvc_data.hashfile.state import State
+
+    rng = ctx.rng
+    local = LocalFileSystem()
+    sources = _zero_stat_sources()
+    ctx.count("stat_views:zero-stat files on this host=%d" % len(sources))
+    for i in range(n):
+        root = ctx.mkdtemp()
+        files = gen.rand_tree(rng, max_files=5)
+        keys = sorted(files)
+        odd = rng.sample(keys, min(len(keys), rng.choice([1, 1, 2, 3])))
+        # every second case (when the host has such files) the misreported entries hold what a zero-stat file of the host holds,
+        # so that the symlink view can be staged next to the others; otherwise they keep their drawn content, made non-empty
+        linked = {}
+        if sources and i % 2 == 0:
+            for k in odd:
+                linked[k] = rng.choice(sorted(sources))
+                files[k] = sources[linked[k]]
+        else:
+            for k in odd:
+                files[k] = files[k] or bytes(rng.choice(b"abcdefgh\n") for _ in range(rng.randrange(1, 30)))
+        how = {k: (_SIZE_REPORTS[(i // 2 + j) % len(_SIZE_REPORTS)] if j == 0 else rng.choice(_SIZE_REPORTS)) for j, k in enumerate(odd)}
+        name = _FLAVOURS[i % len(_FLAVOURS)]
+        jobs = rng.choice([None, 1, 2, 8])
+        # one hash-state cache shared by all the stagings of the local views: the first staging of a view finds it cold, the later ones warm
+        state_mode = rng.choice(["nostate", "cold-then-warm"])
+
+        mroot = "/c03-stat-views-%032x/ws" % rng.getrandbits(128)
+        reported = {"/".join((mroot, *k)): _reported_size(rng, how[k], len(files[k])) for k in odd}
+        views = {}
+        ws = os.path.join(root, "regular")
+        gen.materialize(ws, files, rng)
+        views["local:regular files"] = (local, ws)
+        if linked:
+            ws2 = os.path.join(root, "symlinks")
+            gen.materialize(ws2, {k: c for k, c in files.items() if k not in linked}, rng)
+            for k, src in linked.items():
+                os.makedirs(os.path.dirname(os.path.join(ws2, *k)), exist_ok=True)
+                os.symlink(src, os.path.join(ws2, *k))
+            views["local:symlinks to files that stat as empty"] = (local, ws2)
+        for label, rep in (("memory:true sizes", {}), ("memory:misreported sizes", reported)):
+            mfs = _misreporting_memfs(rep)
+            for k in rng.sample(keys, len(keys)):
+                p = "/".join((mroot, *k))
+                mfs.fs.mkdirs(p.rsplit("/", 1)[0], exist_ok=True)
+                mfs.fs.pipe_file(p, files[k])
+            views[label] = (mfs, mroot)
+
+        modes = ["dry-run", "by-reference"] + (["upload"] if name == "md5" else [])
+        case = {"build_stat_views": True, "name": name, "jobs": jobs, "state": state_mode,
+                "files": {"/".join(k): v.hex() if len(v) < 64 else "len:%d md5:%s" % (len(v), md5hex(v)) for k, v in files.items()},
+                "misreported": {"/".join(k): {"size_reported": how[k], "as": reported["/".join((mroot, *k))], "true_size": len(files[k]),
+                                              "symlink_to": linked.get(k)} for k in odd}}
+        state = State(root_dir=root, tmp_dir=os.path.join(root, "state")) if state_mode != "nostate" else None
+
+        def f():
+            res = {}
+            for label, (vfs, path) in views.items():
+                for mode in modes:
+                    kw = {"dry_run": True} if mode == "dry-run" else {"upload": True} if mode == "upload" else {}
+                    st = state if vfs is local else None
+                    odb = LocalHashFileDB(local, os.path.join(root, "odb-%d" % len(res)), **({"state": st} if st else {}))
+                    _, meta, obj = build_mod.build(odb, path, vfs, name, checksum_jobs=jobs, **kw)
+                    res["%s / %s" % (label, mode)] = {"oid": obj.hash_info.value, "tree": canon_impl_tree(obj), "nfiles": meta.nfiles}
+                    # one of the misreported files staged on its own: the identifier of a file is its digest
+                    k0 = odd[0]
+                    _, _m, fobj = build_mod.build(odb, vfs.join(path, *k0), vfs, name, **kw)
+                    res["%s / %s / %s alone" % (label, mode, "/".join(k0))] = {"file": fobj.hash_info.value}
+            return res
+
+        k, v = safe_call(f)
+        if state:
+            state.close()
+        ctx.case(case)
+        ctx.count("stat_views:name=%s" % name)
+        ctx.count("stat_views:state=%s" % state_mode)
+        ctx.count("stat_views:views=%d" % len(views))
+        for kk in odd:
+            ctx.count("stat_views:size reported=%s" % how[kk])
+        if linked:
+            ctx.count("stat_views:symlinks to zero-stat files=%d" % len(linked))
+            if any(_zero_stat_sources().get(src) != sources[src] for src in linked.values()):
+                # the host changed the content under us: nothing can be concluded from this case
+                ctx.count("stat_views:zero-stat source changed during the case")
+                continue
+        if k != "ok":
+            ctx.oracle(False, case, {"why": "build raised", "impl": v})
+            continue
+        digests = {kk: ref_file_digest(name, c) for kk, c in files.items()}
+        exp_tree = dict(sorted(("/".join(kk), [name, d]) for kk, d in digests.items()))
+        exp_oid = ref_listing_oid(name, digests)
+        for label, got in v.items():
+            if "file" in got:
+                exp = digests[odd[0]]  # (the object got back from a store carries the store's hash name: only the value is compared)
+                ctx.oracle(got["file"] == exp, case,
+                           {"why": "a file staged on its own is not identified by the digest of its content (what stat() reports about it matters)",
+                            "view / staging": label, "got": got["file"], "file's own digest": exp})
+                continue
+            wrong = {p: [got["tree"].get(p), e] for p, e in exp_tree.items() if got["tree"].get(p) != e}
+            ctx.oracle(got["tree"] == exp_tree and got["oid"] == exp_oid and got["nfiles"] == len(files), case,
+                       {"why": "the identifier of a directory depends on what stat()/listings report about its files, not only on the "
+                               "(relative path, content digest) pairs (entry: [recorded, file's own digest])",
+                        "view / staging": label, "wrong_entries": wrong, "oid": got["oid"], "expected_oid": exp_oid})
+
+
 def run_path(ctx, n):
     rng = ctx.rng
     keys = []
@@ -730,6 +918,11 @@ def run(ctx):
         "(entries added, re-added with a new hash, left unchanged), each digest handed out as a (path, fs) handle / to a by-reference staging "
         "store (add_update_tree, build()'s staging) / copied into a store at once, every earlier identifier re-read after every later digest and "
         "after a late add()/transfer() into a real store: its object is still the listing it was computed from; "
+        "one set of (relative path, content) pairs staged through views that differ only in what stat()/listings report about 1-3 of the files "
+        "(plain local directory; symlinks to the host's regular files that stat as empty but read as non-empty (procfs), when there are any; "
+        "an in-memory file system reporting true sizes; the same reporting size 0 / no size / too short / too long / above the large-file "
+        "threshold) x flavour {md5-dos2unix, md5, sha256} x jobs x dry-run / by-reference / upload staging x state none / cold-then-warm on the local "
+        "views, plus one misreported file staged on its own: every listing carries each file's own digest and every view gives the one identifier; "
         "non-trivial = >= 2 entries; distinct = sha256 of the canonical case"
     )
     ctx.assumptions = [
@@ -745,6 +938,7 @@ def run(ctx):
     run_build_flavours(ctx, ctx.n(24, 144))
     run_tree_history(ctx, ctx.n(120, 1500))
     run_referenced_history(ctx, ctx.n(100, 1000))
+    run_build_stat_views(ctx, ctx.n(24, 300))
 
 
 def search(ctx):
@@ -754,6 +948,7 @@ def search(ctx):
     run_build_flavours(ctx, 144)
     run_tree_history(ctx, 1500)
     run_referenced_history(ctx, 1000)
+    run_build_stat_views(ctx, 300)
 
 
 def replay(ctx, payload):
